@@ -126,7 +126,9 @@ Definition size_ok (s : sizer) (size : N) : bool := negb (is_too_small s size) &
 Record popts := mkOpts {
   o_now : Z; o_keep_pack : Z; o_keep_delete : Z;
   o_cacheable_only : bool; o_unc : bool; o_all : bool; o_no_resize : bool; o_instant : bool;
-  o_max_unused : limit; o_max_repack : limit; o_sz_tree : sizer; o_sz_data : sizer }.
+  o_max_unused : limit; o_max_repack : limit; o_sz_tree : sizer; o_sz_data : sizer;
+  o_rel : Z   (* clock when the new index is finalized (`Timestamp::now()` handed to release_removals); >= o_now *)
+}.
 Definition sizer_of (o : popts) (t : btype) : sizer := match t with Tree => o_sz_tree o | Data => o_sz_data o end.
 
 (* the local booleans of decide_packs (their definitions are pinned by the extractor) *)
@@ -347,6 +349,13 @@ Definition sec_packs (o : popts) (ps : list ppack) : list ipack :=
   flat_map (fun p => match exec_table (pp_todo p) (o_instant o) with XPacks md => [to_ipack (o_now o) md p] | _ => [] end) ps.
 Definition sec_del (o : popts) (ps : list ppack) : list ipack :=
   flat_map (fun p => match exec_table (pp_todo p) (o_instant o) with XDel md => [to_ipack (o_now o) md p] | _ => [] end) ps.
+(* release_removals: a held delete mark that carries the plan time gets the release time (only when the source
+   holds and re-stamps, see Extracted.marks_restamped) *)
+Definition restamp (o : popts) (t : option Z) : option Z :=
+  if marks_restamped then
+    match t with Some x => if (x =? o_now o)%Z then Some (o_rel o) else t | None => t end
+  else t.
+Definition del_entry (o : popts) (e : ipack) : ipack := mkIPack (p_id e) (p_blobs e) (restamp o (p_time e)) (p_size e).
 Definition removed_of (o : popts) (ps : list ppack) : list id :=
   flat_map (fun p => match exec_table (pp_todo p) (o_instant o) with XRemove => [pp_id p] | _ => [] end) ps.
 
@@ -377,7 +386,7 @@ Definition execute (packer : list (id * blob) -> list newpack) (new_index_id : i
       let inputs := repack_inputs (pl_left pl) ps in
       let nps := packer (map snd (filter (fun x => btype_eqb (fst x) Tree) inputs))
                  ++ packer (map snd (filter (fun x => btype_eqb (fst x) Data) inputs)) in
-      let nf := mkIFile new_index_id (sec_packs o ps ++ map (np_ipack (o_now o)) nps) (unref_mark ++ sec_del o ps) in
+      let nf := mkIFile new_index_id (sec_packs o ps ++ map (np_ipack (o_now o)) nps) (map (del_entry o) (unref_mark ++ sec_del o ps)) in
       mkOut (untouched pl fs ++ [nf]) (unref_rm ++ removed_of o ps) nps
   end.
 
